@@ -34,7 +34,10 @@ BASIC = [
     G('eolterm', [Rule('M', Asg('ls', '+=', Ref('L'))),
                   Rule('L', S(Str('l'), Asg('vs', '*=', INT, eol=True), Opt(Str(';'))))]),
     G('eolterm-rep', [Rule('M', S(Plus(Asg('vs', '+=', INT), eol=True), Str('e')))]),
-    G('ung-basic', [Rule('M', S(Ung([Asg('x', '=', INT), S(Str('k'), Asg('y', '=', ID))]), Str(';')))]),
+    G('eolterm-sep-asg', [Rule('M', S(Str('v'), Asg('vs', '+=', INT, sep=Str(','), eol=True), Opt(Str('x'))))]),
+    G('eolterm-sep-asg-star', [Rule('M', S(Str('v'), Asg('vs', '*=', ID, sep=Str(';'), eol=True), Opt(Asg('t', '=', INT))))]),
+    G('eolterm-sep-rep', [Rule('M', S(Plus(S(Str('a'), Asg('xs', '+=', INT)), sep=Str(','), eol=True), Str('e')))]),
+    G('ung-basic',[Rule('M', S(Ung([Asg('x', '=', INT), S(Str('k'), Asg('y', '=', ID))]), Str(';')))]),
     G('ung-sep', [Rule('M', S(Ung([Asg('x', '=', INT), Asg('y', '=', ID), Str('z')], sep=Str(',')),
                               Str(';')))]),
     G('ung-optional', [Rule('M', S(Str('b'), Ung([Asg('f', '?=', Str('f')), Asg('s', '?=', Str('s')),
